@@ -236,6 +236,11 @@ fn vparse(s: &str) -> Option<Value> {
 trait Fv: Sized + Clone + PartialEq + Debug {
     fn ty() -> String;
     fn gen(r: &mut Rng, depth: u32) -> Self;
+    /// Generator used for a registry entry of this type (collections: always several elements, so that the element
+    /// recogniser is reset and reused).
+    fn gen_top(r: &mut Rng) -> Self {
+        Self::gen(r, 0)
+    }
     fn inst(&self, o: &mut String);
     fn parse(p: &mut P) -> Option<Self>;
     fn modelled() -> bool {
@@ -392,6 +397,10 @@ impl<T: Fv> Fv for Vec<T> {
             }
         };
         (0..n).map(|_| T::gen(r, d + 1)).collect()
+    }
+    fn gen_top(r: &mut Rng) -> Self {
+        let n = r.range(2, 4);
+        (0..n).map(|_| T::gen(r, 1)).collect()
     }
     fn inst(&self, o: &mut String) {
         o.push('[');
@@ -561,17 +570,22 @@ impl Fv for Value {
     }
 }
 
-impl Fv for HashMap<String, i32> {
+impl<T: Fv> Fv for HashMap<String, T> {
     fn ty() -> String {
         "x:map".into()
     }
     fn gen(r: &mut Rng, d: u32) -> Self {
         let n = r.below(4);
-        (0..n).map(|_| (String::gen(r, d), i32::gen(r, d))).collect()
+        (0..n).map(|_| (String::gen(r, d), T::gen(r, d + 1))).collect()
+    }
+    fn gen_top(r: &mut Rng) -> Self {
+        let n = r.range(2, 4);
+        let keys = ["k", "b", "hello world", "S01", "1a", ""];
+        (0..n as usize).map(|i| (keys[(i + r.below(2) as usize * 3) % keys.len()].to_string(), T::gen(r, 1))).collect()
     }
     fn inst(&self, o: &mut String) {
         let mut kv: Vec<_> = self.iter().collect();
-        kv.sort();
+        kv.sort_by(|a, b| a.0.cmp(b.0));
         o.push_str("m[");
         for (i, (k, v)) in kv.iter().enumerate() {
             if i > 0 {
@@ -593,7 +607,7 @@ impl Fv for HashMap<String, i32> {
         loop {
             let k = String::parse(p)?;
             p.eat(b':')?;
-            let v = i32::parse(p)?;
+            let v = T::parse(p)?;
             m.insert(k, v);
             if p.eat(b',').is_none() {
                 break;
@@ -601,6 +615,65 @@ impl Fv for HashMap<String, i32> {
         }
         p.eat(b']')?;
         Some(m)
+    }
+    fn modelled() -> bool {
+        false
+    }
+}
+
+/// Built-in tuples (`OrdinalFieldsRecognizer`); outside the Lean model.
+impl<A: Fv, B: Fv> Fv for (A, B) {
+    fn ty() -> String {
+        "x:tuple".into()
+    }
+    fn gen(r: &mut Rng, d: u32) -> Self {
+        (A::gen(r, d + 1), B::gen(r, d + 1))
+    }
+    fn inst(&self, o: &mut String) {
+        o.push('<');
+        self.0.inst(o);
+        o.push(',');
+        self.1.inst(o);
+        o.push('>');
+    }
+    fn parse(p: &mut P) -> Option<Self> {
+        p.eat(b'<')?;
+        let a = A::parse(p)?;
+        p.eat(b',')?;
+        let b = B::parse(p)?;
+        p.eat(b'>')?;
+        Some((a, b))
+    }
+    fn modelled() -> bool {
+        false
+    }
+}
+
+impl<A: Fv, B: Fv, C: Fv> Fv for (A, B, C) {
+    fn ty() -> String {
+        "x:tuple".into()
+    }
+    fn gen(r: &mut Rng, d: u32) -> Self {
+        (A::gen(r, d + 1), B::gen(r, d + 1), C::gen(r, d + 1))
+    }
+    fn inst(&self, o: &mut String) {
+        o.push('<');
+        self.0.inst(o);
+        o.push(',');
+        self.1.inst(o);
+        o.push(',');
+        self.2.inst(o);
+        o.push('>');
+    }
+    fn parse(p: &mut P) -> Option<Self> {
+        p.eat(b'<')?;
+        let a = A::parse(p)?;
+        p.eat(b',')?;
+        let b = B::parse(p)?;
+        p.eat(b',')?;
+        let c = C::parse(p)?;
+        p.eat(b'>')?;
+        Some((a, b, c))
     }
     fn modelled() -> bool {
         false
@@ -1399,6 +1472,49 @@ impl<A: Fv + Form + Default, B: Fv + Form + Default> Fv for G2<A, B> {
     }
 }
 
+// every registry type also as the element of collections inside another struct (element recognisers are reset and
+// reused from the second element on)
+#[derive(Form, Clone, PartialEq, Debug, Default)]
+struct CW<T> {
+    v: Vec<T>,
+    o: Option<T>,
+    #[form(header)]
+    n: i32,
+}
+impl<T: Fv + Form + Default> Fv for CW<T> {
+    fn ty() -> String {
+        sd('S', "CW", &[fd('s', "v", <Vec<T>>::ty()), fd('s', "o", <Option<T>>::ty()), fd('h', "n", i32::ty())])
+    }
+    fn gen(r: &mut Rng, d: u32) -> Self {
+        CW { v: Fv::gen(r, d + 1), o: Fv::gen(r, d + 1), n: Fv::gen(r, d + 1) }
+    }
+    fn gen_top(r: &mut Rng) -> Self {
+        CW { v: <Vec<T>>::gen_top(r), o: Fv::gen(r, 1), n: Fv::gen(r, 1) }
+    }
+    fn inst(&self, o: &mut String) {
+        o.push('(');
+        self.v.inst(o);
+        o.push(',');
+        self.o.inst(o);
+        o.push(',');
+        self.n.inst(o);
+        o.push(')');
+    }
+    fn parse(p: &mut P) -> Option<Self> {
+        p.eat(b'(')?;
+        let v = Fv::parse(p)?;
+        p.eat(b',')?;
+        let o = Fv::parse(p)?;
+        p.eat(b',')?;
+        let n = Fv::parse(p)?;
+        p.eat(b')')?;
+        Some(CW { v, o, n })
+    }
+    fn modelled() -> bool {
+        T::modelled()
+    }
+}
+
 // ---- outside the model's universe
 #[derive(Form, Clone, PartialEq, Debug, Default)]
 struct X01 {
@@ -1546,6 +1662,7 @@ trait Ops {
     fn txt(&self, hex_text: &str) -> String;
     fn mp(&self, inst: &str) -> String;
     fn mr(&self, hex_bytes: &str) -> String;
+    fn seq(&self, hex_texts: &str) -> String;
 }
 
 struct Bat<T>(&'static str, PhantomData<T>);
@@ -1593,7 +1710,7 @@ impl<T: Fv + Form + 'static> Ops for Bat<T> {
     }
     fn gen(&self, r: &mut Rng) -> String {
         let mut s = String::new();
-        T::gen(r, 0).inst(&mut s);
+        T::gen_top(r).inst(&mut s);
         s
     }
     fn av(&self, inst: &str) -> String {
@@ -1679,16 +1796,68 @@ impl<T: Fv + Form + 'static> Ops for Bat<T> {
             res(read_from_msg_pack::<T, _>(&mut buf)).replacen("ok:", "ok ", 1)
         })
     }
+    fn seq(&self, hex_texts: &str) -> String {
+        // the same texts read (R) as successive frames of ONE `WithLenRecognizerDecoder` (one recogniser instance, reset
+        // between frames) and (F) each by a fresh `parse_recognize`
+        let texts: Option<Vec<String>> =
+            hex_texts.split(',').map(|h| unhex(h).and_then(|b| String::from_utf8(b).ok())).collect();
+        let texts = match texts {
+            None => return "bad-op".into(),
+            Some(t) => t,
+        };
+        let fresh: Vec<String> = texts.iter().map(|t| guard(|| res(parse_recognize::<T>(t.as_str(), false)))).collect();
+        let reused = guard(|| {
+            use tokio_util::codec::Decoder;
+            let mut buf = BytesMut::new();
+            for t in &texts {
+                buf.put_u64(t.len() as u64);
+                buf.put_slice(t.as_bytes());
+            }
+            let mut dec = swimos_recon::WithLenRecognizerDecoder::new(T::make_recognizer());
+            let mut out: Vec<String> = vec![];
+            let mut guard_n = 0;
+            while out.len() < texts.len() && guard_n < 4 * texts.len() + 4 {
+                guard_n += 1;
+                let before = buf.len();
+                match dec.decode(&mut buf) {
+                    Ok(Some(v)) => out.push(res::<T>(Ok::<T, ()>(v))),
+                    Err(_) => out.push("err".into()),
+                    Ok(None) => {
+                        if buf.len() == before {
+                            match dec.decode_eof(&mut buf) {
+                                Ok(Some(v)) => out.push(res::<T>(Ok::<T, ()>(v))),
+                                _ => out.push("err".into()),
+                            }
+                            break;
+                        }
+                    }
+                }
+            }
+            while out.len() < texts.len() {
+                out.push("missing".into());
+            }
+            out.join("|")
+        });
+        format!("R={} F={}", reused, fresh.join("|"))
+    }
 }
 
 macro_rules! reg {
-    ($($name:expr => $t:ty),* $(,)?) => {
-        vec![$(Box::new(Bat::<$t>($name, PhantomData)) as Box<dyn Ops>),*]
+    ($($name:literal => $t:ty),* $(,)?) => {
+        vec![$(
+            Box::new(Bat::<$t>($name, PhantomData)) as Box<dyn Ops>,
+            Box::new(Bat::<Vec<$t>>(concat!("V:", $name), PhantomData)) as Box<dyn Ops>,
+            Box::new(Bat::<Option<$t>>(concat!("O:", $name), PhantomData)) as Box<dyn Ops>,
+            Box::new(Bat::<CW<$t>>(concat!("C:", $name), PhantomData)) as Box<dyn Ops>,
+            Box::new(Bat::<HashMap<String, $t>>(concat!("M:", $name), PhantomData)) as Box<dyn Ops>
+        ),*]
     };
 }
 
+/// Every base type `T` is registered five times: `T`, `V:T` = `Vec<T>` (2-4 elements), `O:T` = `Option<T>`,
+/// `C:T` = a struct with `Vec<T>` and `Option<T>` fields, `M:T` = `HashMap<String, T>`.
 fn registry() -> Vec<Box<dyn Ops>> {
-    reg![
+    let all = reg![
         "S01" => S01, "S02" => S02, "S03" => S03, "S04" => S04, "S05" => S05, "S06" => S06, "S07" => S07, "S08" => S08,
         "S09" => S09, "S10" => S10, "S11" => S11, "S12" => S12, "S13" => S13, "S14" => S14, "S15" => S15, "S16" => S16,
         "S17" => S17, "S18" => S18, "S19" => S19, "S20" => S20, "S21" => S21, "S22" => S22, "S23" => S23, "U01" => U01,
@@ -1700,8 +1869,11 @@ fn registry() -> Vec<Box<dyn Ops>> {
         "G1i" => G1<i32>, "G1t" => G1<String>, "G1s" => G1<S04>, "G1o" => G1<Vec<i32>>,
         "G2a" => G2<i32, String>, "G2b" => G2<S01, Vec<i32>>,
         "Pi32" => i32, "Pu64" => u64, "Ptext" => String, "Pbool" => bool, "Popt" => Option<i32>, "Plist" => Vec<S01>,
+        "Ptup2" => (i32, String), "Ptup3" => (S06, Option<i32>, Vec<i32>),
         "X01" => X01, "X02" => X02, "X03" => X03, "X04" => X04, "X05" => X05, "X06" => X06, "X07" => X07,
-    ]
+    ];
+    // `Option<Option<_>>` is the `Option` of a type that reads `Extant` (C16_option_of_unit_fails): not registered
+    all.into_iter().filter(|e| e.name() != "O:Popt").collect()
 }
 
 // ------------------------------------------------------------------------------------------ mutations
@@ -2077,6 +2249,7 @@ fn exec(reg: &[Box<dyn Ops>], op: &str) -> String {
         ("txt", 3) => t.txt(parts[2]),
         ("mp", 3) => t.mp(parts[2]),
         ("mr", 3) => t.mr(parts[2]),
+        ("seq", 3) => t.seq(parts[2]),
         _ => "bad-op".into(),
     }
 }
@@ -2151,6 +2324,17 @@ fn gen_paths_case(reg: &[Box<dyn Ops>], r: &mut Rng, t: &mut Trace, e: &dyn Ops,
             m = mutate_text(r, &m);
         }
         ops.push(format!("txt {} {}", name, hex(m.as_bytes())));
+    }
+    // several documents through ONE decoder / recogniser instance (reset in between) vs fresh reads
+    {
+        let mut hs = vec![e.pr("1", &inst)];
+        for _ in 0..r.range(1, 3) {
+            let other = e.gen(r);
+            hs.push(e.pr(if r.chance(1, 2) { "1" } else { "0" }, &other));
+        }
+        if hs.iter().all(|h| unhex(h).is_some()) {
+            ops.push(format!("seq {} {}", name, hs.join(",")));
+        }
     }
     ops.push(format!("mp {} {}", name, inst));
     let mh = e.mp(&inst);
